@@ -2,6 +2,7 @@
 import itertools
 
 from core import Property, Stream, enc, dec
+import pystr
 
 START = "REUSE-IgnoreStart"
 END = "REUSE-IgnoreEnd"
@@ -232,9 +233,10 @@ def table_roundtrip():
 
 PROPERTY = Property(
     pid="C12",
-    streams=[FilterStream(), ExtractStream()],
+    streams=[FilterStream(), ExtractStream()] + pystr.STREAMS,
     assumptions=[
-        "CPython str.index/in/slicing are modelled by Py.findSub/take/drop (validated by the correspondence)",
+        "CPython str.index/in/slicing are modelled by Py.findSub/take/drop (validated by the correspondence; the shared pystr streams "
+        "compare the Python string mirrors of Py/Str.lean with CPython over all of Unicode and on enumerated strings)",
         "extract stream: tag recognition itself (regex engine) is exercised, not modelled here (see C02)",
     ],
     table_roundtrip=table_roundtrip,
